@@ -34,7 +34,7 @@ ASSUMPTIONS = [
     "the basis up to the length at which avoidance is decided; otherwise the oracle is silent",
 ]
 PARTIAL = [
-    'verdict_matches_simples (Brignall-Ruskuc-Vatter + Schmerl-Trotter): has_finite_simples B <-> Av(B) has finitely many simple permutations -- evaluated against brute-force counts of simples up to length 9 and explicit families. PROVED part: special test False => simples of Av(B) in every length n>=4 of one parity, hence in one of every two consecutive lengths and beyond every bound (special_false_simples_one_parity/_consecutive/_unbounded, verdict_false_by_special_correct, av_false_by_special_correct). NOT proved: pin half False => infinitely many simples; verdict True => finitely many',
+    'verdict_matches_simples (Brignall-Ruskuc-Vatter + Schmerl-Trotter): has_finite_simples B <-> Av(B) has finitely many simple permutations -- evaluated against brute-force counts of simples up to length 9 and explicit families. PROVED half (verdict False => infinitely many simples, equivalently finitely many simples => verdict True): special test False => simples of Av(B) in every length n>=4 of one parity (special_false_simples_one_parity/_consecutive/_unbounded, verdict_false_by_special_correct, av_false_by_special_correct); pin half False => simples of Av(B) beyond every length bound (pin_false_infinitely_many_simples, via strict_pin_perm_contains_large_simple: the permutation of a strict pin word of length n>=7 contains a simple permutation of length >= n-1 -- Brignall-Huczynska-Vatter for proper pin sequences, Lemmas/C16PinGeo.lean classify / pinSeq_simple_sub); also in one of every two consecutive lengths n, n+1 for all n>=6 (strict_pin_prefix, pin_false_simples_consecutive); combined: verdict_false_correct, verdict_false_simples_consecutive, av_false_correct, strategy_false_correct, verdict_true_of_finitely_many_simples (all for dfa = None). NOT proved: verdict True => finitely many simples (needs Brignall-Ruskuc-Vatter Thm: every long simple contains a long proper pin sequence, parallel alternation or wedge simple)',
     "pin_D8_invariant is now PROVED: C14.hasFinitePinperms_act (has_finite_pinperms (B.map g) = has_finite_pinperms B for the eight symmetries) and C14.hasFinitePinperms_class_only (bases with the same avoiders get the same verdict) - these discharge the hypothesis hpin of C16.hasFiniteSimples_act / hasFiniteSimples_class_only for dfa = none (the theorems in Props/C16.lean keep hpin as a hypothesis because Props/C14 imports C16's lemmas, not the other way round)",
 ]
 TRUSTED = ["is_polynomial (C13) is taken as an input of Av.has_finitely_many_simples"]
